@@ -16,9 +16,11 @@ RULE = ("exhaustive: every source made of 1-2 distinct weak (possibly incomplete
         "contains a repeated ballot (factorise_instance)")
 EXHAUSTIVE = {
     "quick": "sources of 1-2 distinct orders (all 25 non-empty weak orders over subsets of {1,2,3}; multiplicities "
-             "1 / (1,2)) x all truncator lists of length 1-2 over {1,2,3} (absolute sizes, class counts) x 6 relative "
-             "lists; all 8 None/non-None parameter combinations",
-    "thorough": "same with multiplicities in {1,2}^k and truncator lists of length 1-3 over {1,2,3}, 9 relative lists",
+             "1,2 / (1,1),(1,2)) and all 75 complete weak orders over {1,2,3,4} as single-order sources x all truncator "
+             "lists of length 1-2 over {1,2,3} (absolute sizes, class counts) x 6 relative lists; all 8 None/non-None "
+             "parameter combinations; factorise_instance on all lists of length <= 4 over 3 ballots",
+    "thorough": "same with multiplicities in {1,2}^k and truncator lists of length 1-3 over {1,2,3}, 9 relative "
+                "lists; factorise_instance on all lists of length <= 5 over 3 ballots",
 }
 TRUSTED = [
     "modelled: CategoricalInstance.from_ordinal (guards, the three per-order category constructions, padding, "
@@ -148,8 +150,8 @@ def generate(tier, seed):
     # ---- exhaustive small ------------------------------------------------------------------------------------
     orders = all_small_orders([1, 2, 3])
     sources = []
-    mults1 = [1] if quick else [1, 2]
-    mults2 = [(1, 2)] if quick else [(1, 1), (1, 2), (2, 1), (2, 2)]
+    mults1 = [1, 2]
+    mults2 = [(1, 1), (1, 2)] if quick else [(1, 1), (1, 2), (2, 1), (2, 2)]
     for o in orders:
         for m in mults1:
             sources.append([(o, m)])
@@ -164,8 +166,17 @@ def generate(tier, seed):
             out.append(fo_case(src, nic=t, alts=[1, 2, 3], exh=1))
         for r in rels:
             out.append(fo_case(src, rel=r, alts=[1, 2, 3], exh=1))
+    # single orders over <= 4 alternatives (a truncation point of 3 inside a longer order)
+    for o in all_small_orders([1, 2, 3, 4]):
+        if sum(len(c) for c in o) < 4:
+            continue
+        for t in tl:
+            out.append(fo_case([(o, 2)], st=t, alts=[1, 2, 3, 4], exh=1))
+            out.append(fo_case([(o, 2)], nic=t, alts=[1, 2, 3, 4], exh=1))
+        for r in rels:
+            out.append(fo_case([(o, 2)], rel=r, alts=[1, 2, 3, 4], exh=1))
     # ---- random, collapse-prone ------------------------------------------------------------------------------
-    nrand = 1500 if quick else 20000
+    nrand = 3000 if quick else 40000
     for i in range(nrand):
         src, alts = random_source(rng)
         mode = i % 3
